@@ -433,10 +433,10 @@ Definition dtoa_short_f32 (b : N) : str * bool * bool := restrict_prec (dtoa_f32
 
 (* ---------------------------------------------------------------- cssparser write_numeric *)
 
-Definition nonfinite_marker : str := [60; 110; 111; 110; 102; 105; 110; 105; 116; 101; 62]. (* "<nonfinite>" *)
 
 Definition write_numeric (value : N) (int_value : option Z) (has_sign : bool) : str :=
-  if negb (f_is_finite value) then nonfinite_marker else
+  (* infinities (e.g. 3e38rpx * 100) reach dtoa's `format_finite`, which prints them as if the
+     exponent field 255 were an ordinary exponent (2^128); the model does the same *)
   (if has_sign && negb (f_sign value) then [43] else []) ++
   (if f_is_zero value && f_sign value then
      [45; 48] ++
